@@ -4,6 +4,7 @@ import cmath
 import types
 import operator
 import itertools
+import array
 from collections import deque
 from fractions import Fraction
 
@@ -28,7 +29,11 @@ RULE = ("cases are plain data: (operator method, self leaf, other leaf), express
         "catches every element error and keeps pulling the same result: every later position must still "
         "be the operator applied to that position's elements and the end must come where the shortest "
         "iterable operand ends (clauses faulty / faulty_trees plant such positions on purpose); clause "
-        "deep stacks 2600..12000 operators on top of each other; "
+        "deep stacks 2600..12000 operators on top of each other; clauses mutated / mutated_trees change "
+        "a list (or array.array) operand in place after the expression was built - grown, shrunk, items "
+        "replaced, before the first read or between two reads - and compare with the operands as they are "
+        "when each position is read; broadcast functions are also given instances of user-defined container "
+        "classes (subclasses of list / tuple / deque, own iterable classes with and without len()); "
         "non-trivial = expected result has >= 2 positions and not every operand is a "
         "scalar (broadcast: container with >= 2 items); distinct = distinct case hash")
 ASSUMPTIONS = [
@@ -44,6 +49,8 @@ ASSUMPTIONS = [
   "reading on after a caught element-level exception is asserted for operator results (the 35 methods and abs): position i is op(a_i, b_i) for every i below the shortest operand's length, whatever happened at earlier positions. When an *operand* of a nested operator could itself not produce position i (a failure inherited from a sub-expression), the result's position i fails with that class too, and the model follows the later positions only if the partner is a scalar or the operator is unary: the property does not say whether the partner iterable's i-th element counts as consumed then (the library consumes it when the failing operand is pulled second and not when it is pulled first), so nothing is asserted from that position on",
   "attribute / method-call nodes and broadcast functions are not asserted beyond their first failing position: a broadcast function must return the kind of container it was given, over a list it raises as a whole and over a generator it returns a generator, which the first exception finishes by construction; over a Stream (and for Stream.attr / Stream.method()) the library behaves the same way (the result ends after the failing position)",
   "deep chains use depths above the interpreter's default recursion limit plus the 2000 frames Hypothesis reserves, with +, -, *, comparisons and bitwise operators on small ints / halves / bools (no element failures), evaluated level by level without recursion in the check itself",
+  "a list / array.array operand changed in place after the operator expression was built: the result is lazy, so its position i is the operator applied to the i-th elements as they are when position i is read (every iterable operand is read one position per pull of the result), and it ends at the first pull that finds one operand without an i-th item, i.e. with the shortest operand as it is when its end is reached; changes are only made by the consumer between two pulls (never after the result has ended, never on deques, whose iterators refuse any change)",
+  "user-defined container classes given to a broadcast function are built from any iterable by their constructor (class(iterable)); the result must be an instance of exactly that class",
   "lazy inputs (generator, range, map, filter, zip, enumerate) must come back as a generator with zero source pulls before iteration; a Stream (or a Stream subclass such as a StreamTeeHub) comes back as a Stream, also unpulled",
 ]
 
@@ -180,6 +187,9 @@ def close(g, e, tol, atol):
 STREAM_KINDS = ["s_list", "s_tuple", "s_gen", "s_iter", "s_range", "s_chain", "s_cyc", "s_per", "s_const",
                 "s_rep", "s_rep2"]
 PLAIN_KINDS = ["list", "tuple", "gen", "iter", "deque", "range", "scalar"]
+# a list / array.array operand that is CHANGED (grown, shrunk, items replaced) after the expression was
+# built - before the first read or between two reads; payload (items, [(at, (op, arg)), ...]), see m_mut
+MUT_KINDS = ("mlist", "marray")
 # Stream(a) / Stream(a, b, c) are endless by construction (itertools.repeat / cycle):
 # they only ever meet a finite iterable operand of a binary operator, so that a stage
 # that wrongly reads eagerly still terminates (and is then caught by value or by the
@@ -226,7 +236,89 @@ def b_leaf(kind, p):
     return deque(els(p))
   if kind == "range":
     return range(*p)
+  if kind == "mlist":
+    return els(p[0])
+  if kind == "marray":
+    return _mk_array(p)(p[0])
   raise AssertionError(kind)
+
+
+def _mk_array(p):
+  """array.array constructor for a marray payload: 'q' when every value (items and event arguments)
+  is a plain int, 'd' otherwise."""
+  vals = list(p[0])
+  for _at, (op, arg) in p[1]:
+    if op in ("append",):
+      vals.append(arg)
+    elif op in ("extend", "iadd", "rebuild"):
+      vals += list(arg)
+    elif op in ("insert", "set"):
+      vals.append(arg[1])
+  if all(type(v) is int for v in vals):
+    return lambda xs: array.array("q", xs)
+  return lambda xs: array.array("d", [float(x) for x in xs])
+
+
+def apply_event(obj, op, arg, mk):
+  """One in-place change of a list / array operand (mk builds a sequence of obj's own type)."""
+  if op == "append":
+    obj.append(mk([el(arg)])[0])
+  elif op == "extend":
+    obj.extend(mk(els(arg)))
+  elif op == "iadd":
+    obj += mk(els(arg))
+  elif op == "insert":
+    obj.insert(arg[0], mk([el(arg[1])])[0])
+  elif op == "set":
+    if len(obj):
+      obj[arg[0] % len(obj)] = mk([el(arg[1])])[0]
+  elif op == "cut":
+    del obj[arg:]
+  elif op == "pop":
+    if len(obj):
+      obj.pop(arg % len(obj))
+  elif op == "clear":
+    del obj[:]
+  elif op == "rebuild":
+    obj[:] = mk(els(arg))
+  elif op == "reverse":
+    obj.reverse()
+  else:
+    raise AssertionError(op)
+
+
+def mk_for(kind, p):
+  return list if kind == "mlist" else _mk_array(p)
+
+
+def m_mut(kind, p, upto=None):
+  """A changed operand as the lazy result sees it: the result is read one position at a time, the
+  i-th read of every iterable operand happens with the i-th pull of the result, so position i is
+  the operand's i-th item *as it is at that moment* (events with at == i are applied just before
+  pull i) and the operand ends at the first pull i that finds no i-th item.  -> (vals, effects);
+  effects = labels of the events applied up to pull `upto` (None: all the operand lives to see)."""
+  cur = b_leaf(kind, p)
+  mk = mk_for(kind, p)
+  vals, effects = [], set()
+  i = 0
+  while True:
+    if upto is None or i <= upto:
+      for at, (op, arg) in p[1]:
+        if at == i:
+          before = list(cur)
+          apply_event(cur, op, arg, mk)
+          when = "before the first read" if i == 0 else "between two reads"
+          if len(cur) > len(before):
+            effects.add("operand grown " + when)
+          elif len(cur) < len(before):
+            effects.add("operand shrunk " + when)
+          elif [sig(v) for v in cur] != [sig(v) for v in before]:
+            effects.add("operand items replaced " + when)
+    if i >= len(cur):
+      break
+    vals.append(cur[i])
+    i += 1
+  return vals, effects
 
 
 class M(object):
@@ -253,6 +345,8 @@ def m_leaf(kind, p):
     return M(els(p[0]) + els(p[1]), {STOP})
   if kind in ("range", "s_range"):
     return M(list(range(*p)), {STOP})
+  if kind in MUT_KINDS:
+    return M(m_mut(kind, p)[0], {STOP})
   return M(els(p), {STOP})
 
 
@@ -283,12 +377,16 @@ def m_un(f, a):
   return M(out, a.tails)
 
 
-def drain(res, model):
-  """Pull the real result as far as the model goes (+1) and report how it ended."""
+def drain(res, model, sched=None):
+  """Pull the real result as far as the model goes (+1) and report how it ended.
+  sched: {k: [thunk, ...]} run just before pull k (changes of operands between two reads)."""
   it = iter(res)
   limit = H if model.tails == ENDLESS else len(model.vals) + 1
   out = []
-  for _ in range(limit):
+  for k in range(limit):
+    if sched:
+      for thunk in sched.get(k, ()):
+        thunk()
     try:
       out.append(next(it))
     except StopIteration:
@@ -310,8 +408,8 @@ def tails_txt(t):
   return "/".join(sorted(x if isinstance(x, str) else x.__name__ for x in t))
 
 
-def compare(res, model, what):
-  got, end = drain(res, model)
+def compare(res, model, what, sched=None):
+  got, end = drain(res, model, sched)
   exp = model.vals
   if [sig(v) for v in got] != [sig(v) for v in exp]:
     k = 0
@@ -717,6 +815,21 @@ def strat_faulty(tier):
     lambda m: cached(("faulty", m), lambda: _for_domain(m, faulty_domain(minfo(m)[0]))))
 
 
+def twins(v):
+  """Scalars that compare equal to v but have another numeric type (3 / 3.0 / Fraction(3) / 3+0j,
+  1 / True, 0.5 / Fraction(1, 2))."""
+  out = []
+  if type(v) in (bool, int, float, Fraction, complex):
+    for t in (int, float, Fraction, bool, complex):
+      try:
+        w = t(v)
+      except Exception:
+        continue
+      if type(w) is not type(v) and w == v and not any(type(w) is type(x) for x in out):
+        out.append(w)
+  return out
+
+
 def run_matrix(case):
   m = case["m"]
   base, rev, arity = minfo(m)
@@ -739,6 +852,14 @@ def run_matrix(case):
     o = b_leaf(okind, op)
     mo = m_leaf(okind, op)
     labels.append("other:" + okind)
+    if okind == "scalar":
+      # history: the same operator was just used with equal scalars of other numeric types (on other
+      # Streams); the operand repeated for every position is still the one given here
+      tw = twins(o)
+      for w in tw:
+        getattr(b_leaf(skind, sp), dunder)(w)
+      if tw:
+        labels.append("equal scalar of another type used before")
     res = getattr(s, dunder)(o)
     if rev:
       labels.append("reflected")
@@ -900,7 +1021,7 @@ FAM["p_real"] = wone((6, _REAL3), (1, st.just(None)))
 FAM["p_bits"] = wone((6, st.one_of(st.integers(-4, 4), BOOLS)), (1, st.sampled_from([None, 1.5])))
 
 
-def tree_strategy(mode, depth):
+def tree_strategy(mode, depth, mut=False):
   fams, bins, uns, extra = MODES[mode]
   small = {"pow": (st.integers(-2, 3), rng(-2, 3, 4)),
            "lshift": (st.integers(0, 6), rng(0, 6)), "rshift": (st.integers(0, 6), rng(0, 6))}
@@ -927,6 +1048,11 @@ def tree_strategy(mode, depth):
   _tleaf = st.one_of([stream_leaf(spec_for(f), "true") for f in fams]).map(mkl)
   _fleaf = st.one_of([stream_leaf(spec_for(f), "none") for f in fams] +
                       [plain_leaf(spec_for(f), scalar=False) for f in fams]).map(mkl)
+  if mut:
+    # most plain operands are lists / arrays that will be changed after the expression is built
+    _mleaf = st.one_of([mut_leaf(FAM[f], ARR.get(f)) for f in fams]).map(mkl)
+    _pleaf = wone((3, _mleaf), (1, _pleaf))
+    _fleaf = wone((2, _mleaf), (1, _fleaf))
 
   def build(d):
     if d == 0:
@@ -959,6 +1085,11 @@ def tree_strategy(mode, depth):
         st.tuples(st.just("F"), st.sampled_from(sorted(FN_NODES)), sub),
         st.tuples(st.just("A"), st.sampled_from(ATTR_NODES), sub),
         st.tuples(st.just("C"), st.sampled_from(CALL_NODES), sub)))
+    if mut and normal:
+      # at every level, most nodes get a list operand that will be changed, on either side
+      return wone((2, st.tuples(st.just("B"), nb, sub, _mleaf)), (2, st.tuples(st.just("B"), nb, _mleaf, sub)),
+                  (1, st.tuples(st.just("B"), nb, _tleaf, _mleaf)), (1, st.tuples(st.just("B"), nb, _mleaf, _tleaf)),
+                  (3, st.one_of(opts)))
     return st.one_of(opts)
 
   return build(depth)
@@ -980,22 +1111,26 @@ def strat_faulty_trees(tier):
       dict(mode=st.just(md[0]), tree=tree_strategy(*md)))))
 
 
-def ev_real(t, path="t"):
+def ev_real(t, path="t", reg=None):
+  """reg: list collecting (object, kind, payload) of the leaves that are changed after the build."""
   tag = t[0]
   if tag == "L":
-    return b_leaf(t[1], t[2])
+    obj = b_leaf(t[1], t[2])
+    if reg is not None and t[1] in MUT_KINDS:
+      reg.append((obj, t[1], t[2]))
+    return obj
   if tag == "B":
-    left = ev_real(t[2], path + ".l")
-    right = ev_real(t[3], path + ".r")
+    left = ev_real(t[2], path + ".l", reg)
+    right = ev_real(t[3], path + ".r", reg)
     res = SYN[t[1]](left, right)
   elif tag == "U":
-    res = SYN[t[1]](ev_real(t[2], path + ".c"))
+    res = SYN[t[1]](ev_real(t[2], path + ".c", reg))
   elif tag == "F":
-    res = getattr(audiolazy, t[1])(ev_real(t[2], path + ".c"))
+    res = getattr(audiolazy, t[1])(ev_real(t[2], path + ".c", reg))
   elif tag == "A":
-    res = getattr(ev_real(t[2], path + ".c"), t[1])
+    res = getattr(ev_real(t[2], path + ".c", reg), t[1])
   elif tag == "C":
-    res = getattr(ev_real(t[2], path + ".c"), t[1])()
+    res = getattr(ev_real(t[2], path + ".c", reg), t[1])()
   else:
     raise AssertionError(tag)
   if type(res) is not Stream:
@@ -1070,6 +1205,154 @@ def run_trees(case):
   if depth >= 2:
     labels.append("nested")
   return {"nontrivial": nt, "labels": labels + rlabels}
+
+
+# --------------------------------------------------------------------------
+# laziness of the result towards its operands: a list operand changed after the expression was built
+# --------------------------------------------------------------------------
+# array.array operands hold plain ints or floats only
+ARR = {"wide": st.integers(-99, 99), "shifts": st.integers(0, 8), "bits": INTS, "exps": st.integers(0, 3),
+       "int": INTS, "float": HALVES, "floatx": HALVES, "real": INTS, "mixed": HALVES}
+
+
+def mut_leaf(e, ea=None):
+  """("mlist" | "marray", (items, [(at, (op, arg)), ...])): the operand as built and what is done
+  to it afterwards; at = number of result items read before the change (0: before the first read)."""
+  def one(kind, e):
+    vals = st.lists(e, min_size=1, max_size=4)
+    grow = st.one_of(st.tuples(st.just("extend"), vals), st.tuples(st.just("append"), e),
+                     st.tuples(st.just("iadd"), vals),
+                     st.tuples(st.just("insert"), st.tuples(st.integers(0, 6), e)))
+    other = st.one_of(st.tuples(st.just("set"), st.tuples(st.integers(0, 8), e)),
+                      st.tuples(st.just("cut"), st.integers(0, 5)),
+                      st.tuples(st.just("pop"), st.integers(0, 8)),
+                      st.tuples(st.just("clear"), st.none()),
+                      st.tuples(st.just("rebuild"), st.lists(e, max_size=6)),
+                      st.tuples(st.just("reverse"), st.none()))
+    event = st.tuples(wone((1, st.just(0)), (1, st.integers(0, 3))), wone((1, grow), (1, other)))
+    items = wone((4, st.lists(e, min_size=1, max_size=5)), (1, st.just([])))
+    return st.tuples(st.just(kind), st.tuples(items, st.lists(event, min_size=1, max_size=3)))
+  if ea is None:
+    return one("mlist", e)
+  return wone((3, one("mlist", e)), (1, one("marray", ea)))
+
+
+MUT_METHODS = [m for m in METHODS if minfo(m)[2] == 2]
+assert len(MUT_METHODS) == 32
+
+
+def _mut_for_domain(m, d):
+  base, rev, arity = minfo(m)
+  fam, left, right = d
+  sspec, ospec = (right, left) if rev else (left, right)
+  o = mut_leaf(SPECS[ospec][0], ARR.get(ospec))
+  # the Stream side: every kind; the endless ones (Stream(a), Stream(a, b, c), a bounded cycle) are
+  # the operands "truncated by a finite one" whatever length the finite one has when it is read
+  s = wone((3, sleaf_c(sspec)), (2, sleaf_c(sspec, "true")))
+  return st.fixed_dictionaries(dict(m=st.just(m), fam=st.just(fam), s=s, o=o))
+
+
+def strat_mutated(tier):
+  def for_method(m):
+    return st.sampled_from(domain(minfo(m)[0])).flatmap(
+      lambda d: cached(("mutated", m, d), lambda: _mut_for_domain(m, d)))
+  return st.sampled_from(MUT_METHODS).flatmap(lambda m: cached(("mutated", m), lambda: for_method(m)))
+
+
+def strat_mutated_trees(tier):
+  depths = [1, 1, 2, 2, 3] if tier == "quick" else [1, 2, 2, 3, 4]
+  modes = ["arith"] * 5 + ["complex"] * 2 + ["bits"] * 3 + ["mx"] + ["wild"]
+  return st.tuples(st.sampled_from(modes), st.sampled_from(depths)).flatmap(
+    lambda md: cached(("mtree", md), lambda: st.fixed_dictionaries(
+      dict(mode=st.just(md[0]), tree=tree_strategy(md[0], md[1], mut=True)))))
+
+
+def _schedule(reg):
+  """{pull index: [thunks]} from the registered (object, kind, payload) leaves."""
+  sched = {}
+  for obj, kind, p in reg:
+    mk = mk_for(kind, p)
+    for at, (op, arg) in p[1]:
+      sched.setdefault(at, []).append(lambda obj=obj, op=op, arg=arg, mk=mk: apply_event(obj, op, arg, mk))
+  return sched
+
+
+def _mut_labels(leaves, model):
+  """leaves: [(kind, payload)] of the changed operands; labels of what the changes did to the result."""
+  labels = set()
+  nread = len(model.vals)       # events scheduled for pulls 0..nread are carried out
+  for kind, p in leaves:
+    labels.add("changed:" + kind)
+    effects = m_mut(kind, p, upto=nread)[1]
+    labels |= effects
+    if any(e.startswith("operand grown") for e in effects) and nread > len(p[0]):
+      # the conjunction that matters: the result has positions the operand did not have when built
+      labels.add("result longer than the operand was when built")
+    if any(e.startswith("operand shrunk") for e in effects) and len(m_mut(kind, p)[0]) == nread < len(p[0]):
+      labels.add("result ends with the shrunk operand")
+  if labels and not any(l.startswith("operand ") for l in labels):
+    labels.add("changes without effect")
+  return sorted(labels)
+
+
+def run_mutated(case):
+  """s.__op__(lst) called directly; lst is changed afterwards, then the result is read: position i is
+  the operator on the i-th elements as they are when read, the end is where the shortest operand
+  ends as it is when its end is reached."""
+  m = case["m"]
+  base, rev, arity = minfo(m)
+  f = OPF[base]
+  skind, sp = case["s"]
+  okind, op = case["o"]
+  s = b_leaf(skind, sp)
+  o = b_leaf(okind, op)
+  ms, mo = m_leaf(skind, sp), m_leaf(okind, op)
+  dunder = "__%s__" % m
+  res = getattr(s, dunder)(o)
+  if type(res) is not Stream:
+    raise Violation("%s.%s(%s) returned %r, not a Stream" % (skind, dunder, okind, res))
+  model = m_bin(f, mo, ms) if rev else m_bin(f, ms, mo)
+  what = "%s %s on %r / %r changed after the call" % (dunder, case["fam"], case["s"], case["o"])
+  compare(res, model, what, _schedule([(o, okind, op)]))
+  labels = ["op:" + m, "self:" + skind, "fam:" + case["fam"]] + (["reflected"] if rev else [])
+  labels += outcome_labels(model, [ms, mo])
+  ml = _mut_labels([(okind, op)], model)
+  nt = len(model.vals) >= 2 and any(l.startswith("operand ") for l in ml)
+  return {"nontrivial": nt, "labels": labels + ml}
+
+
+def _mut_leaves(t, acc):
+  if t[0] == "L":
+    if t[1] in MUT_KINDS:
+      acc.append((t[1], t[2]))
+  else:
+    for c in t[2:]:
+      _mut_leaves(c, acc)
+  return acc
+
+
+def run_mutated_trees(case):
+  tree = case["tree"]
+  stats = {"leaves": [], "ops": set(), "reflected": False}
+  model, depth = ev_model(tree, stats)
+  reg = []
+  res = ev_real(tree, reg=reg)
+  if type(res) is not Stream:
+    raise Violation("expression evaluated to %r, not a Stream" % (res,))
+  compare(res, model, "tree %r with its list operands changed after the build" % (tree,), _schedule(reg))
+  operands = [m for _, m in stats["leaves"]]
+  labels = ["depth:%d" % depth, "mode:" + case["mode"]]
+  labels += outcome_labels(model, operands)
+  if stats["reflected"]:
+    labels.append("plain operand on the left")
+  if depth >= 2:
+    labels.append("nested")
+  leaves = _mut_leaves(tree, [])
+  ml = _mut_labels(leaves, model)
+  if len(leaves) >= 2:
+    ml.append("several changed operands")
+  nt = len(model.vals) >= 2 and any(l.startswith("operand ") for l in ml)
+  return {"nontrivial": nt, "labels": labels + ml}
 
 
 # --------------------------------------------------------------------------
@@ -1327,9 +1610,49 @@ FN["freq2str"] = _fn(lambda f: ref_midi2str(int(round(ref_freq2midi(f)))),
 FNAMES = sorted(FN)
 assert len(FNAMES) == 47
 
+class UBag(object):
+  """A user's re-iterable container: iterable, built from any iterable, but no len() and no indexing."""
+
+  def __init__(self, data=()):
+    self._d = tuple(data)
+
+  def __iter__(self):
+    return iter(self._d)
+
+
+class UGenBag(UBag):
+  """The same with __iter__ written as a generator function."""
+
+  def __iter__(self):
+    for x in self._d:
+      yield x
+
+
+class USized(UBag):
+  """... with len()."""
+
+  def __len__(self):
+    return len(self._d)
+
+
+class UList(list):
+  pass
+
+
+class UTuple(tuple):
+  pass
+
+
+class UDeque(deque):
+  pass
+
+
+USER = {"u_bag": UBag, "u_genbag": UGenBag, "u_sized": USized, "u_list": UList, "u_tuple": UTuple,
+        "u_deque": UDeque}
 EAGER = {"list": list, "tuple": tuple, "deque": deque, "set": set, "frozenset": frozenset}
+EAGER.update(USER)
 LAZY = ["gen", "stream", "stream_list", "stream_endless", "thub", "range", "map", "filter", "iter_gen", "zip", "enumerate"]
-CONTAINERS = ["scalar", "scalar"] + sorted(EAGER) * 2 + LAZY + ["gen", "stream"]
+CONTAINERS = ["scalar"] * 4 + sorted(EAGER) * 2 + LAZY + ["gen", "stream"]
 
 
 def strat_broadcast(tier):
@@ -1490,6 +1813,10 @@ def run_broadcast(case):
         raise Violation("%s(%s %r) = %r, expected the set of %r" % (name, cont, items, got, expset))
     else:
       check_seq(list(got), cont)
+    if cont in USER:
+      labels.append("user container class")
+      if not hasattr(ctor, "__len__"):
+        labels.append("container without len()")
     return {"nontrivial": len(exp) >= 2, "labels": labels + ["container kept"]}
 
   # lazy kinds
@@ -1651,7 +1978,8 @@ CLAUSES = [
          doc="an operator returns a new Stream and leaves its (reusable: constant / control) operand untouched"),
   Clause("matrix", strat_matrix, run_matrix, quick=3200, thorough=60000,
          floors={"reflected": .1, "unequal lengths": .1, "periodic truncated": .06,
-                 "scalar repeated": .02, "clean end": .25, "element exception": .03},
+                 "scalar repeated": .02, "clean end": .25, "element exception": .03,
+                 "equal scalar of another type used before": .012},
          doc="each of the 35 dunders (and abs) called directly on 8 Stream kinds x 15 operand kinds x element families"),
   Enumerated("grid", grid, run_matrix, shards={"quick": 8, "thorough": 16},
              doc="every (method, self kind, other kind) with fixed element vectors, both length orders"),
@@ -1668,13 +1996,30 @@ CLAUSES = [
   Clause("faulty_trees", strat_faulty_trees, run_trees, quick=1200, thorough=20000,
          floors={"read on after exception": .08, "value after a failing position": .035, "nested": .17},
          doc="nested expressions over such operands, read on after every caught element error"),
+  Clause("mutated", strat_mutated, run_mutated, quick=1600, thorough=30000,
+         floors={"reflected": .1, "result longer than the operand was when built": .12,
+                 "operand grown before the first read": .2, "operand grown between two reads": .03,
+                 "operand shrunk before the first read": .05, "operand items replaced before the first read": .025,
+                 "result ends with the shrunk operand": .04, "periodic truncated": .15, "changed:marray": .03},
+         doc="each of the 32 binary dunders called directly with a list (or array.array) operand that is "
+             "grown / shrunk / has items replaced after the call - before the first read or between two "
+             "reads: the result is lazy, so position i is the operator on the i-th elements as they are "
+             "when read and the end comes with the shortest operand as it is when its end is reached"),
+  Clause("mutated_trees", strat_mutated_trees, run_mutated_trees, quick=1000, thorough=20000,
+         floors={"nested": .1, "plain operand on the left": .15, "several changed operands": .06,
+                 "result longer than the operand was when built": .1,
+                 "operand grown before the first read": .15, "operand grown between two reads": .03,
+                 "operand shrunk before the first read": .05},
+         doc="nested expressions (operator syntax, reflected dispatch) whose list operands are changed "
+             "after the expression was built"),
   Clause("deep", strat_deep, run_deep, quick=160, thorough=1600,
          floors={"plain operand on the left": .15, "chain on the left": .15, "clean end": .3},
          doc="chains 2600..6000 (thorough ..12000) operators deep, plain and reflected, every operand kind"),
   Clause("broadcast", strat_broadcast, run_broadcast, quick=3200, thorough=50000,
          floors={"scalar in, scalar out": .02, "container kept": .15, "lazy in, lazy out": .15,
-                 "keyword call": .04},
-         doc="47 one-argument math/dB/MIDI functions x 17 container kinds: kind kept, elements = closed form, laziness"),
+                 "keyword call": .04, "user container class": .1, "container without len()": .03},
+         doc="47 one-argument math/dB/MIDI functions x 23 container kinds (incl. user-defined container classes "
+             "with and without len()): kind kept, elements = closed form, laziness"),
   Clause("attr", strat_attr, run_attr, quick=800, thorough=10000,
          floors={"call": .2, "attribute": .1, "clean end": .25},
          doc="Stream.attr / Stream.method(*args, **kwargs) elementwise"),
